@@ -131,6 +131,10 @@ def plan_seq(pid, tier, seed, ncpu):
         if pid in ("C12", "C13", "C03", "C04", "C10"):
             # un-synced batches on the concurrent cache, judged by the batch model (reads first, then writes in queue order)
             js += seq_jobs(bindirs["dbg"], workdir, known, pid, "batch", scale(tier, 80000, 2000000), 60, seed, 4, prefix="batch")
+        if pid == "C13":
+            # more expired entries than one purge batch: a get that finds an expired entry still held is a recorded lookup too
+            # (the popularity a later admission is decided on); judged by the table comparison around every call
+            js += seq_jobs(bindirs["dbg"], workdir, known, pid, "bulk", scale(tier, 180, 4500), 1300, seed, 3, prefix="bulk")
         if pid == "C04":
             # size-aware caches with hundreds of entries: one update that needs more than one eviction batch
             js += seq_jobs(bindirs["dbg"], workdir, known, pid, "bulk", scale(tier, 240, 6000), 1300, seed, 3, prefix="bulk")
